@@ -5,8 +5,9 @@
  *    __CPROVER_assume/__CPROVER_assert;
  *  - with -DWITNESS: CHECK is a no-op and WITNESS_POINT(msg) becomes
  *    assert(0): the driver requires every witness point to be reachable;
- *  - with -DVLOG: every ND_*() value is appended to vlog[] so that the
- *    driver can read the inputs back from a counterexample trace;
+ *  - with -DVLOG: every ND_*() value passes through the identity function
+ *    vin() so that the driver can read the inputs back from a counterexample
+ *    trace (actual parameters of the vin calls, in order);
  *  - with -DNATIVE_REPLAY: ND_*() read successive values from the replay
  *    file named by $VERIF_REPLAY, ASSUME exits 3 when false, CHECK prints
  *    and exits 1 when false (the harness is then linked against the real,
@@ -42,11 +43,10 @@ uint64_t nondet_u64(void);
 size_t nondet_size(void);
 int nondet_int(void);
 #ifdef VLOG
-#ifndef VLOG_MAX
-#define VLOG_MAX 4096
-#endif
-extern uint64_t vlog[VLOG_MAX];
-extern unsigned vlog_n;
+/* vin() is an identity function with a body (harness/vlog.c): the driver reads
+   the nondet values back from the counterexample trace as the actual
+   parameters of its calls, in call order (no logging array: a symbolic log
+   index made the trace query of the engine harness run out of memory) */
 uint64_t vin(uint64_t v);
 #define VIN(x) vin((uint64_t)(x))
 #else
